@@ -6,6 +6,7 @@ import DSV.Model.Hint
 import DSV.Model.Meta
 import DSV.Model.Gc
 import DSV.Model.Occ
+import DSV.Model.Lock
 /-!
 Line-protocol driver: one request per line on stdin, one reply per line on stdout.
 First token selects the model function.  Imports only `DSV.Model.*` (core Lean), so it links natively.
@@ -539,6 +540,71 @@ def handleOcc (args : List String) : String :=
         | .error e => s!"fail step {i} {t}: {e}"
   go s0 0 steps
 
+/-! #### locks -/
+open DSV.Lock in
+def parseFAct (t : String) : Option (Nat × FAct) :=
+  match t.splitOn ":" with
+  | ["tick", d] => d.toNat?.map fun n => (0, FAct.tick n)
+  | [a, "begin", t] => match a.toNat?, t.toNat? with
+      | some x, some y => some (x, .begin y)
+      | _, _ => none
+  | [a, "attempt"] => a.toNat?.map fun x => (x, .attempt)
+  | [a, "release"] => a.toNat?.map fun x => (x, .release)
+  | [a, "die"] => a.toNat?.map fun x => (x, .die)
+  | _ => none
+
+open DSV.Lock in
+def showF (s : FSys) (actors : List Nat) : String :=
+  ",".intercalate (actors.map fun a =>
+    let f := s.inst a
+    s!"{a}={if f.locked then "L" else "-"}{if f.timedOut then "T" else "-"}{if f.deadline.isSome then "W" else "-"}")
+
+open DSV.Lock in
+def handleFrun (args : List String) : String :=
+  match args.mapM parseFAct with
+  | none => "bad-op"
+  | some acts =>
+    let actors := ((acts.map (·.1)).eraseDups.filter (· ≠ 0)).mergeSort (· ≤ ·)
+    let rec go (s : FSys) (out : List String) : List (Nat × FAct) → String
+      | [] => ";".intercalate out.reverse
+      | (a, act) :: rest => match fstep s a act with
+          | some s' => go s' (showF s' actors :: out) rest
+          | none => ";".intercalate (("reject" :: out).reverse)
+    go finit [] acts
+
+open DSV.Lock in
+def parseSAct (t : String) : Option (Nat × SAct) :=
+  match t.splitOn ":" with
+  | ["tick", d] => d.toNat?.map fun n => (0, SAct.tick n)
+  | [a, act] => do
+      let x ← a.toNat?
+      let ac ← match act with
+        | "create" => some SAct.create | "head" => some .head | "takeover" => some .takeover | "renew" => some .renew
+        | "isHeld" => some .isHeld | "relGet" => some .relGet | "relDelete" => some .relDelete | _ => none
+      pure (x, ac)
+  | _ => none
+
+open DSV.Lock in
+def showS (s : SSys) (actors : List Nat) : String :=
+  (match s.obj with | some o => s!"o{o.owner}" | none => "o-") ++ "|" ++
+  ",".intercalate (actors.map fun a => s!"{a}={if (s.cl a).isLocked then "L" else "-"}")
+
+open DSV.Lock in
+def handleSrun (args : List String) : String :=
+  match args with
+  | lease :: cd :: steps =>
+    match lease.toNat?, steps.mapM parseSAct with
+    | some l, some acts =>
+      let actors := ((acts.map (·.1)).eraseDups.filter (· ≠ 0)).mergeSort (· ≤ ·)
+      let rec go (s : SSys) (out : List String) : List (Nat × SAct) → String
+        | [] => ";".intercalate out.reverse
+        | (a, act) :: rest => match sstep s a act with
+            | some s' => go s' (showS s' actors :: out) rest
+            | none => ";".intercalate (("reject" :: out).reverse)
+      go (sinit l (cd = "1")) [] acts
+    | _, _ => "bad-op"
+  | _ => "bad-op"
+
 def handle (line : String) : String :=
   match splitWs line with
   | [] => "bad-op"
@@ -550,6 +616,8 @@ def handle (line : String) : String :=
     else if cmd.startsWith "meta." then handleMeta cmd args
     else if cmd.startsWith "gc." then handleGc cmd args
     else if cmd = "occ.trace" then handleOcc args
+    else if cmd = "lock.frun" then handleFrun args
+    else if cmd = "lock.srun" then handleSrun args
     else if cmd.startsWith "rng." || cmd.startsWith "retry." || cmd.startsWith "ls." then handleBackend cmd args
     else "bad-op"
 
